@@ -265,13 +265,13 @@ func parseContracts(src, pkgName, file string) ([]*Contract, map[string]*define,
 			// before call <callee>[#k] assert <expr>
 			// before any call <callee> assert <expr>: a policy on every such call, of which there may be none
 			optional := false
-			if strings.HasPrefix(rest, "any call ") {
+			if strings.HasPrefix(rest, "any call ") || strings.HasPrefix(rest, "any store ") {
 				optional = true
 				rest = rest[4:]
 			}
 			k := strings.Index(rest, " assert ")
 			if strings.HasPrefix(rest, "store ") && k >= 0 {
-				cur.Asserts = append(cur.Asserts, SiteAssert{Store: true, Callee: strings.TrimSpace(rest[6:k]), Cl: Clause{Text: strings.TrimSpace(rest[k+8:]), Line: line, Tag: curTag}})
+				cur.Asserts = append(cur.Asserts, SiteAssert{Store: true, Optional: optional, Callee: strings.TrimSpace(rest[6:k]), Cl: Clause{Text: strings.TrimSpace(rest[k+8:]), Line: line, Tag: curTag}})
 				c := cur
 				lastAppend = func(s string) { c.Asserts[len(c.Asserts)-1].Cl.Text += " " + s }
 				break
